@@ -491,7 +491,11 @@ def origin(body, op, through_calls=True, max_nodes=400, _depth=0):
                             for o in rv['ops']:
                                 push_op(o)
                     elif rv.get('agg') == 'closure':
-                        res.atoms.add(('closure', rv['closure']))
+                        if first_field is not None and not lproj and first_field < len(rv['ops']):
+                            # a captured value read out of the environment of a closure spliced into this body
+                            push_member(rv['ops'][first_field])
+                        else:
+                            res.atoms.add(('closure', rv['closure']))
                     else:
                         for o in rv['ops']:
                             push_op(o)
